@@ -534,6 +534,26 @@ def loops_to_comprehensions(tree):
                         blk[i:i + 2] = [ast.copy_location(ast.Assign(targets=a.targets, value=comp), a)]
                         ast.fix_missing_locations(blk[i])
                         continue
+                # ``D = {}`` directly followed by ``for x in I: D[K] = V`` (nothing else in the loop, D
+                # not read in I / K / V) is the dict comprehension ``D = {K: V for x in I}``
+                if isinstance(a, ast.Assign) and len(a.targets) == 1 and isinstance(a.targets[0], ast.Name) \
+                        and isinstance(a.value, ast.Dict) and not a.value.keys and \
+                        isinstance(lp, ast.For) and not lp.orelse and len(lp.body) == 1 and \
+                        isinstance(lp.body[0], ast.Assign) and len(lp.body[0].targets) == 1 and \
+                        isinstance(lp.body[0].targets[0], ast.Subscript) and \
+                        isinstance(lp.body[0].targets[0].value, ast.Name) and \
+                        lp.body[0].targets[0].value.id == a.targets[0].id:
+                    D = a.targets[0].id
+                    st_ = lp.body[0]
+                    K, V = st_.targets[0].slice, st_.value
+                    if not any(isinstance(x, ast.Name) and x.id == D for e in (lp.iter, K, V) for x in ast.walk(e)) \
+                            and not any(isinstance(x, (ast.Yield, ast.YieldFrom, ast.Await, ast.NamedExpr))
+                                        for x in ast.walk(lp)):
+                        comp = ast.DictComp(key=K, value=V, generators=[
+                            ast.comprehension(target=lp.target, iter=lp.iter, ifs=[], is_async=0)])
+                        blk[i:i + 2] = [ast.copy_location(ast.Assign(targets=a.targets, value=comp), a)]
+                        ast.fix_missing_locations(blk[i])
+                        continue
                 i += 1
 
 
@@ -1316,6 +1336,22 @@ def forward_adjacent_temp(tree):
                     uses = [n for n in ast.walk(fn) if isinstance(n, ast.Name) and n.id == x]
                     if len(uses) == 2:
                         b.value = a.value
+                        del blk[i]
+                        continue
+                # ``x = E`` directly followed by ``yield (... x ...)`` with x used exactly once there and
+                # nowhere else, E a plain subscript / attribute read: substitute
+                if isinstance(a, ast.Assign) and len(a.targets) == 1 and isinstance(a.targets[0], ast.Name) \
+                        and isinstance(b, ast.Expr) and isinstance(b.value, ast.Yield) and \
+                        isinstance(a.value, (ast.Subscript, ast.Attribute, ast.Name)) and \
+                        a.targets[0].id not in params:
+                    x = a.targets[0].id
+                    uses = [n for n in ast.walk(fn) if isinstance(n, ast.Name) and n.id == x]
+                    inb = [n for n in ast.walk(b) if isinstance(n, ast.Name) and n.id == x]
+                    if len(uses) == 2 and len(inb) == 1:
+                        class _Sub(ast.NodeTransformer):
+                            def visit_Name(self, n):
+                                return a.value if n.id == x and isinstance(n.ctx, ast.Load) else n
+                        blk[i + 1] = _Sub().visit(b)
                         del blk[i]
                         continue
                 # ``x = E`` directly followed by ``return x`` (no other use of x): ``return E``
